@@ -171,6 +171,7 @@ def run_concurrent(case: dict, prop: str, trace: bool = False,
 
 class C01(Profile):
     id = 'C01'
+    BACKENDS = ('dict', 'dict', 'dict', 'maildir')
     level = 'exploration'
     quick_budget_s = 40.0
     thorough_budget_s = 420.0
@@ -193,13 +194,18 @@ class C01(Profile):
         '(glass_missing counts it)']
     components = {
         'real': ['pymap.imap', 'pymap.parsing', 'pymap.selected',
-                 'pymap.backend.session', 'pymap.backend.dict',
-                 'pymap.concurrent (asyncio primitives)', 'pysasl'],
+                 'pymap.backend.session', 'pymap.backend.dict (3 of 4 '
+                 'cases)', 'pymap.backend.maildir + stdlib mailbox.Maildir '
+                 'on a tmpfs tree behind the SimFS interposer (1 of 4 cases)',
+                 'pymap.concurrent (asyncio primitives, FileLock)', 'pysasl'],
         'stub': ['TCP/StreamWriter (SimConn; StreamReader is the stdlib one)',
-                 'TLS', 'thread pools (asyncio subsystem)']}
+                 'TLS', 'thread pools (both backends run under the asyncio '
+                 'subsystem)', 'redis backend (not installed)']}
 
     def gen(self, rng, tier):
-        return gen_concurrent_case(rng, tier)
+        from .common import backends, finish_cfg
+        return finish_cfg(gen_concurrent_case(
+            rng, tier, backends=backends(self.BACKENDS)), rng)
 
     def run(self, case, trace=False):
         return run_concurrent(case, 'C01', trace)
